@@ -159,7 +159,9 @@ def emit_unit(u, order, exclude=(), helpers=False):
     texts, waiting = {}, {}
     def attempt(name):
         try:
-            if name == "fill_bytes" and not helpers and not hasattr(u, "translate_fn"):
+            if hasattr(u, "translate_fn"):
+                d = u.translate_fn(name)
+            elif name == "fill_bytes" and not helpers:
                 d = translate_fill_bytes(u, u.methods[name])
             elif name == "from_seed":
                 d = translate_fn(u, name)
@@ -303,14 +305,14 @@ def xorshift_theorems(u, done):
     return [(f"XorShiftRng.{fn}", stmt, props, fn) for fn, stmt, props in pairs if fn in done]
 
 PROOFS = {
-    "f1": "ext_tie_step", "f2": "ext_tie_step",
+    "f1": "ext_tie_hc_fn", "f2": "ext_tie_hc_fn",
     "stir_pool": "ext_tie_stir", "lfsr": "ext_tie_lfsr", "stuck": "ext_tie_step",
     # tactic scripts tried in order (first | …); `rfl` is by far the common case: the translation unfolds to the model
     "next_u32": "ext_tie_step", "next_u64": "ext_tie_step", "fill_bytes": "ext_tie_fill", "jump": "ext_tie_jump",
     "long_jump": "ext_tie_jump", "from_seed": "ext_tie_seed", "seed_from_u64": "ext_tie_seed",
     # rand_hc / rand_isaac: see the proof scripts below (bridge lemmas: Rngs/Lib/ExtTieBlock.lean, ExtTieShapes.lean)
     "hc_step_p": "ext_tie_hc_step", "hc_step_q": "ext_tie_hc_step",
-    "isaac_ind": "ext_tie_isaac_ind", "isaac_rngstep": "ext_tie_isaac_step", "isaac_mix": "ext_tie_isaac_step",
+    "core_eq": "ext_tie_core_eq", "isaac_ind": "ext_tie_isaac_ind", "isaac_mix": "ext_tie_isaac_step",
 }
 
 # ---- proof scripts of the block generators.  Each is `first | fast path | generic path`: the fast path rewrites the model side
@@ -319,6 +321,10 @@ PROOFS = {
 def _unf(G):
     """simp arguments that unfold the helper functions of unit G"""
     return "".join(f", Ext.{G}.{h}" for h in HELPERS.get(G, []))
+
+def _unfold_helpers(G):
+    """tactics that unfold the extracted helpers of unit G where they occur (lets are kept: no zeta)"""
+    return "".join(f"; try unfold Ext.{G}.{h}" for h in HELPERS.get(G, []))
 
 def _hc_helpers():
     return ("\n  have hp : Ext.Hc128Core.step_p = Hc128.stepPC := by\n    funext st i i511 i3 i10 i12; exact ExtTie.Hc128Core.step_p st i i511 i3 i10 i12"
@@ -331,7 +337,7 @@ def proof_hc_generate(name):
                 "\n           from rfl).trans (by rw [hp, hq]; exact ExtShape.Hc128Core.generate_eq st results)")
     return ("\n  intro st results" + _hc_helpers() +
             "\n  rw [Hc128.generate_hoisted]"
-            "\n  simp only [Ext.Hc128Core.generate" + _unf("Hc128Core") + ", hp, hq, Hc128.blockWith, Hc128.TABLE, List.foldl, Hc128.idx, Hc128.bases, Hc128.USIZE]"
+            "\n  simp only [Ext.Hc128Core.generate" + _unf("Hc128Core") + ", hp, hq, Hc128.blockWith, Hc128.TABLE, List.foldl, Hc128.idx, Hc128.bases, Hc128.USIZE, and_15, and_511, and_1023]"
             "\n  split <;> simp only [Hc128.stepPC_counter, Hc128.stepQC_counter, Nat.add_zero]")
 
 def proof_hc_sixteen(name):
@@ -341,7 +347,7 @@ def proof_hc_sixteen(name):
                 "\n           from rfl).trans (by rw [hp, hq]; exact ExtShape.Hc128Core.sixteen_steps_eq st)")
     return ("\n  intro st" + _hc_helpers() +
             "\n  rw [Hc128.sixteenSteps_hoisted]"
-            "\n  simp only [Ext.Hc128Core.sixteen_steps" + _unf("Hc128Core") + ", hp, hq, Hc128.feedWith, Hc128.TABLE, List.foldl, Hc128.idx, Hc128.bases, Hc128.USIZE]"
+            "\n  simp only [Ext.Hc128Core.sixteen_steps" + _unf("Hc128Core") + ", hp, hq, Hc128.feedWith, Hc128.TABLE, List.foldl, Hc128.idx, Hc128.bases, Hc128.USIZE, and_15, and_511, and_1023]"
             "\n  split <;> simp only [Hc128.stepPC_counter, Hc128.stepQC_counter, Nat.add_zero]")
 
 def proof_hc_init(name):
@@ -349,7 +355,8 @@ def proof_hc_init(name):
             "\n  have h16 : Ext.Hc128Core.sixteen_steps = Hc128.sixteenSteps := funext ExtTie.Hc128Core.sixteen_steps"
             "\n  simp only [Ext.Hc128Core.init" + _unf("Hc128Core") + ", ExtTie.Hc128Fns.f1, ExtTie.Hc128Fns.f2, h16, Hc128.init, foldl_range'_add, ← BitVec.ofNat_add,"
             "\n    Hc128.expandAt, Nat.reduceAdd, Nat.reduceSub, List.take, List.drop, List.cons_append, List.nil_append, List.foldl_cons,"
-            "\n    List.foldl_nil, BitVec.ofNat_eq_ofNat]")
+            "\n    List.foldl_nil, BitVec.ofNat_eq_ofNat, wr_wr_sort, wr_wr_same, Nat.reduceLT]"
+            "\n  first | done | bounded 100 => rfl | (ac_nf; first | done | bounded 100 => rfl)")
 
 def proof_hc_from_seed(name):
     return ("\n  intro seed"
@@ -364,14 +371,23 @@ def proof_isaac(fn):
             return (f"\n  intro st results"
                     f"\n  have hr : Ext.{G}.rngstep = Isaac.rngstepT Isaac.params{w} := by"
                     f"\n    funext mem results mix a b base m m2; exact ExtTie.{G}.rngstep mem results mix a b base m m2"
-                    f"\n  exact (show Ext.{G}.generate st results = ExtShape.{G}.generate Ext.{G}.rngstep st results from rfl).trans"
-                    f"\n    (by rw [hr]; exact ExtShape.{G}.generate_eq st results)")
+                    f"\n  have e : Ext.{G}.generate st results = ExtShape.{G}.generate Ext.{G}.rngstep st results := by"
+                    f"\n    first"
+                    f"\n    | bounded 100 => rfl"
+                    f"\n    | bounded 400 => (unfold Ext.{G}.generate ExtShape.{G}.generate{_unfold_helpers(G)}; ac_nf; first | done | bounded 100 => rfl)"
+                    f"\n    | (simp only [Ext.{G}.generate{_unf(G)}, ExtShape.{G}.generate]; ac_nf; first | done | bounded 100 => rfl)"
+                    f"\n  exact e.trans (by rw [hr]; exact ExtShape.{G}.generate_eq st results)")
         if fn == "init":
             return (f"\n  intro mem rounds"
                     f"\n  have hm : Ext.{G}.mix = Isaac.mixT Isaac.params{w} := by"
                     f"\n    funext a b c d e f g h; exact ExtTie.{G}.mix a b c d e f g h"
-                    f"\n  exact (show Ext.{G}.init mem rounds = ExtShape.{G}.init Ext.{G}.mix mem rounds from rfl).trans"
-                    f"\n    (by rw [hm]; exact ExtShape.{G}.init_eq mem rounds)")
+                    f"\n  have e : Ext.{G}.init mem rounds = ExtShape.{G}.init Ext.{G}.mix mem rounds := by"
+                    f"\n    first"
+                    f"\n    | bounded 100 => rfl"
+                    f"\n    | bounded 400 => (unfold Ext.{G}.init ExtShape.{G}.init{_unfold_helpers(G)}; ac_nf; first | done | bounded 100 => rfl)"
+                    f"\n    | bounded 1000 => (simp only [Ext.{G}.init{_unf(G)}, ExtShape.{G}.init, wr_wr_sort, wr_wr_same, Nat.add_lt_add_iff_left,"
+                    f"\n        Nat.lt_add_right_iff_pos, Nat.reduceLT]; ac_nf; first | done | bounded 100 => rfl)"
+                    f"\n  exact e.trans (by rw [hm]; exact ExtShape.{G}.init_eq mem rounds)")
         if fn in ("from_rng", "try_from_rng"):
             return (f"\n  intro ρ fill src"
                     f"\n  simp only [Ext.{G}.{fn}{_unf(G)}, ExtTie.{G}.init, Isaac.coreFromRng{w}, foldl_wr_rd_self]"
@@ -389,6 +405,17 @@ HEAVY = {"hc_generate": 2000000, "hc_sixteen_steps": 2000000}
 PROOFS.update({"hc_generate": proof_hc_generate, "hc_sixteen_steps": proof_hc_sixteen, "hc_init": proof_hc_init,
                "hc_from_seed": proof_hc_from_seed, "isaac_generate": proof_isaac("generate"), "isaac_init": proof_isaac("init"),
                "isaac_from_seed": proof_isaac("from_seed"), "isaac_seed_from_u64": proof_isaac("seed_from_u64")})
+def proof_isaac_rngstep(name):
+    """`rngstep`: the two lookups go through the correspondence theorem of `ind` (its side condition `amount < w` is
+    discharged on the literal amounts), then both sides are the same term up to the association of `+`"""
+    G = name.split(".")[0]
+    w = 64 if "64" in G else 32
+    return (f"\n  intros"
+            f"\n  simp only [Ext.{G}.rngstep{_unf(G)}, ExtTie.{G}.ind, Isaac.rngstep, Isaac.params{w}, Isaac.RAND_SIZE, Isaac.RAND_SIZE_LEN,"
+            f"\n    Nat.reduceAdd, Nat.reduceLT, Nat.reduceSub, BitVec.add_assoc, Nat.sub_sub]"
+            f"\n  first | done | bounded 100 => rfl | ac_rfl")
+PROOFS["isaac_rngstep"] = proof_isaac_rngstep
+
 def _proof_from_rng(name):
     return proof_isaac(name.split(".")[1])(name)
 PROOFS["isaac_from_rng"] = _proof_from_rng
@@ -461,6 +488,51 @@ def generate(repo, exclude=None):
                 HELPERS[u.name] = [n for n in done if f"{u.name}.{n}" not in {t[0] for t in ths}]
         except Exception as e:
             report[crate + (":Hc128Core" if crate == "rand_hc" and "Hc128Fns" in report else "")] = dict(error=repr(e))
+    # rand_core 0.9.5 (registry source) and the wrapper types built on it
+    try:
+        import rs2lean_rc
+        for u, order in rs2lean_rc.build_units(report):
+            text, done, skipped = emit_unit(u, order, dict(exclude.get(u.name, {})))
+            parts.append(text)
+            report[u.name] = dict(file=u.file, translated=done, skipped=skipped, shape=u.shape, seed_len=u.seed_len)
+            if ASSERTS.get(u.name):
+                report[u.name]["ignored_asserts"] = ASSERTS[u.name]
+            ths, proofs = rs2lean_rc.theorems(u, done)
+            theorems += ths
+            CUSTOM_PROOFS.update(proofs)
+        # XorShiftRng::from_rng / try_from_rng (the redraw loop around the byte source)
+        try:
+            u, order = rs2lean_rc.build_unit_xorshift_src(repo, report)
+            text, done, skipped = emit_unit(u, order, dict(exclude.get(u.name, {})))
+            parts.append(text)
+            old = report.get("XorShiftRng") or {}
+            sk = {k: v for k, v in (old.get("skipped") or {}).items() if k not in done}
+            sk.update(skipped)
+            report["XorShiftRng"] = dict(old, translated=list(old.get("translated") or []) + done, skipped=sk)
+            for fn, m in (("from_rng", "fromRngFuel"), ("try_from_rng", "tryFromRngFuel")):
+                if fn in done:
+                    theorems.append((f"XorShiftRng.{fn}", f"∀ {{ρ : Type}} (fill : TryFill ρ) (fuel : Nat) (src : ρ), "
+                                     f"Ext.XorShiftRng.{fn} fuel fill src = XorShift.{m} fill fuel src", ["C08", "C09"], fn))
+                    CUSTOM_PROOFS[f"XorShiftRng.{fn}"] = (
+                        "intro ρ fill fuel src\n" + ("  rw [XorShift.tryFromRngFuel_eq]\n" if fn == "try_from_rng" else "") +
+                        f"  exact loopF_redraw fill _ (by intro b r; rfl) fuel (List.replicate 16 (0#8)) src")
+        except Exception as e:
+            report["XorShiftRng"] = dict(report.get("XorShiftRng") or {}, src_error=repr(e))
+        # the wrapper types Hc128Rng / IsaacRng / Isaac64Rng (newtypes of BlockRng / BlockRng64 of the translated cores)
+        avail = set()
+        for part in parts:
+            for ns, body in re.findall(r"^namespace Ext\.(\w+)\n(.*?)^end Ext\.", part, re.S | re.M):
+                avail |= {f"Rngs.Ext.{ns}.{m}" for m in re.findall(r"^def (\w+)", body, re.M)}
+        for u, order in rs2lean_rc.build_wrapper_units(repo, report, avail):
+            text, done, skipped = emit_unit(u, order, dict(exclude.get(u.name, {})))
+            parts.append(text)
+            report[u.name] = dict(file=u.file, translated=done, skipped=skipped, shape=u.shape, seed_len=u.seed_len)
+            ths, proofs = rs2lean_rc.wrapper_theorems(u, done)
+            theorems += ths
+            CUSTOM_PROOFS.update(proofs)
+    except Exception as e:
+        report["rand_core"] = dict(report.get("rand_core") or {}, error=repr(e))
+    unmodelled_impls(repo, report, {t[0] for t in theorems})
     digest = hashlib.sha256("\n".join(parts).encode()).hexdigest()[:16]
     out = [HEADER.format(digest=digest)] + parts + ["\nnamespace ExtTie"]
     for name, stmt, props, fn in theorems:
@@ -473,6 +545,37 @@ def generate(repo, exclude=None):
         out.append(f"theorem {name} : {stmt} := by" + (pr(name) if callable(pr) else f" {pr} Ext.{name}"))
     out.append("end ExtTie\nend Rngs\n")
     return "\n".join(out), report, theorems
+
+def unmodelled_impls(repo, report, stated):
+    """hand-written `Clone` / `PartialEq` of a type under the tie that no theorem speaks about (the source derives them, or has
+    none: a patch ADDED the impl).  What `clone()` returns and what `==` says is C10's subject, and a derived impl is the identity /
+    the field-wise comparison by construction; a hand-written one is a function like any other, and here it has neither a
+    translation nor a model counterpart: recorded as `unmodelled` (check.py: a broken obligation of C10; the sweep: not silent)."""
+    try:        # a function that has a theorem on the pinned tree and none now has LEFT the fragment: reported as such, not here
+        pinned = set(json.load(open(os.path.join(os.path.dirname(os.path.dirname(os.path.abspath(__file__))), "pinned_src",
+                                                 "EXPECTED.json")))["theorems"])
+    except Exception:
+        pinned = set()
+    stated = set(stated) | pinned
+    files = {}
+    for u, r in list(report.items()):
+        if isinstance(r, dict) and r.get("file") and str(r["file"]).endswith(".rs"):
+            files.setdefault(r["file"], set()).add(u)
+    for rel, names in files.items():
+        try:
+            f = rsfront.load(os.path.join(repo, rel))
+        except Exception:
+            continue
+        for trait, ty, fns, consts in f.impls:
+            t = (trait or "").split("::")[-1].split("<")[0]
+            if ty not in names or t not in ("Clone", "PartialEq"):
+                continue
+            r = report[ty]
+            for k, v in fns.items():
+                if v.body is None or f"{ty}.{k}" in stated or k in (r.get("skipped") or {}):
+                    continue
+                r.setdefault("unmodelled", {})[k] = (f"hand-written impl {t} for {ty}: no model counterpart, no theorem "
+                                                     f"(the pinned source {'derives it' if t == 'Clone' else 'has no such impl'})")
 
 def nested_fn(fn, name, macros):
     """a `fn name(..)` item declared inside the body of `fn`"""
@@ -539,7 +642,7 @@ def file_consts(f, extra=None):
             consts[n] = (cty, lit_lean(v, cty))
     return consts, vals
 
-def methods_of(f, sname, skip_traits=("fmt::Debug", "PartialEq", "Eq", "::core::cmp::PartialEq", "::core::cmp::Eq", "Clone")):
+def methods_of(f, sname, skip_traits=("fmt::Debug", "Eq", "::core::cmp::Eq", "Clone")):
     ms, aliases = {}, {}
     for (trait, ty, fns, consts), types in zip(f.impls, f.impl_types):
         if ty != sname or trait in skip_traits:
@@ -607,8 +710,9 @@ def build_units_hc(repo):
     cm.update(ms)              # f1, f2 are called by init; their definitions are those of the unit Hc128Fns
     u = Unit("Hc128Core", sinfo, cm, consts, macros, prims, "Rngs.Ext.Hc128Core", aliases, vals)
     u.extern = {n: "Rngs.Ext.Hc128Fns." + n for n in ms}
+    u.sort_acc = True
     u.shape, u.seed_len, u.file = ("Hc128Core", 32), 32, "rand_hc/src/hc128.rs"
-    yield u, ["step_p", "step_q", "generate", "sixteen_steps", "init", "from_seed"]
+    yield u, ["step_p", "step_q", "generate", "sixteen_steps", "init", "from_seed", "eq"]
 
 def sig_is(u, fn, selfkind, params, ret):
     """does the translated function still have the signature the correspondence statement is written for?
@@ -643,7 +747,8 @@ def hc_theorems(u, done, skipped=None):
         done = guard(u, done, skipped, {
             "step_p": ("mut", [(N, False)] * 5, U32), "step_q": ("mut", [(N, False)] * 5, U32),
             "generate": ("mut", [(("arr", U32, 16), True)], None), "sixteen_steps": ("mut", [], None),
-            "init": (None, [(("arr", U32, 8), False)], SELF), "from_seed": (None, [(("arr", "u8", 32), False)], SELF)})
+            "init": (None, [(("arr", U32, 8), False)], SELF), "from_seed": (None, [(("arr", "u8", 32), False)], SELF),
+            "eq": ("ref", [(SELF, False)], "bool")})
     if u.name == "Hc128Fns":
         return [(f"Hc128Fns.{n}", f"Ext.Hc128Fns.{n} = Hc128.{n}", ["C02"], n) for n in ("f1", "f2") if n in done]
     E, th = "Ext.Hc128Core", []
@@ -661,6 +766,8 @@ def hc_theorems(u, done, skipped=None):
         if n is not None and len(u.sigs["init"]["params"]) == 1 and is_arr(u.sigs["init"]["params"][0][1], flat=True):
             xs = " ".join(f"s{i}" for i in range(n))
             th.append(("Hc128Core.init", f"∀ {xs}, {E}.init {xs} = Hc128.init [{', '.join(f's{i}' for i in range(n))}]", ["C02"], "hc_init"))
+    if "eq" in done:
+        th.append(("Hc128Core.eq", f"∀ a b, {E}.eq a b = Hc128.Core.beq a b", ["C10"], "core_eq"))
     if "from_seed" in done:
         th.append(("Hc128Core.from_seed", f"∀ seed, {E}.from_seed seed = Hc128.fromSeedCore seed", ["C02", "C09"], "hc_from_seed"))
     return th
@@ -717,7 +824,8 @@ def build_units_isaac(repo):
                      "read_u64_into": prim_read_into(64), "le::read_u64_into": prim_read_into(64), "@bytes_types": ()}
             u = Unit(sname, sinfo, methods, consts, macros, prims, f"Rngs.Ext.{sname}", aliases, vals)
             u.shape, u.seed_len, u.file, u.width = (sname, w), 32, f"rand_isaac/src/{fname}.rs", w
-            yield u, ["ind", "rngstep", "generate", "mix", "init", "from_seed", "seed_from_u64", "from_rng", "try_from_rng"]
+            u.sort_acc = True
+            yield u, ["ind", "rngstep", "generate", "mix", "init", "from_seed", "seed_from_u64", "from_rng", "try_from_rng", "eq"]
         except Exception as e:
             yield None, (sname, repr(e))
 
@@ -733,6 +841,7 @@ def isaac_theorems(u, done, skipped=None):
         "mix": (None, [(W, True)] * 8, None), "generate": ("mut", [(A, True)], None),
         "init": (None, [(A, False), ("u32", False)], SELF), "from_seed": (None, [(("arr", "u8", 32), False)], SELF),
         "seed_from_u64": (None, [("u64", False)], SELF),
+        "eq": ("ref", [(("named", u.name), False)], "bool"),
         "from_rng": (None, [(("named", "implRngCore"), True)], SELF),
         "try_from_rng": (None, [(("named", "R"), True)], ("named", "Result<Self,R::Error>"))})
     th = []
@@ -746,6 +855,8 @@ def isaac_theorems(u, done, skipped=None):
                f"(let o := {P}.mix ⟨a, b, c, d, e, f, g, h⟩; (o.a, o.b, o.c, o.d, o.e, o.f, o.g, o.h))", ["C03"])
     add("generate", f"∀ st results, {E}.generate st results = Isaac.generate {P} st results", ["C03"])
     add("init", f"∀ mem rounds, {E}.init mem rounds = Isaac.init {P} mem rounds.toNat", ["C03"])
+    if "eq" in done:
+        th.append((f"{G}.eq", f"∀ a b, {E}.eq a b = Isaac.Core.beq a b", ["C10"], "core_eq"))
     add("from_seed", f"∀ seed, {E}.from_seed seed = Isaac.fromSeedCore{w} seed", ["C03", "C09"])
     add("seed_from_u64", f"∀ x, {E}.seed_from_u64 x = Isaac.seedFromU64Core{w} x", ["C03", "C09"])
     # the cores' from_rng / try_from_rng (the `unsafe` byte view of the seed array is the primitive rs2lean.FnTr.unsafe_fill);
